@@ -44,6 +44,7 @@ var c15PipelineHeaders = map[string]string{
 	"Authorization": "Bearer from-pipeline",
 	"X-Mixed-Case":  "pipeline",
 	"X-Api-Key":     "k-{{ .Request.Method }}",
+	"X-Groups":      "{{ if false }}never{{ end }}", // a pipeline header whose value is empty for this subject
 }
 
 func c15RuleSets(up string) []*rconfig.RuleSet {
@@ -122,7 +123,7 @@ func c15Path(rng *rand.Rand, rw c15Rewrite) string {
 	return "/" + rw.ID + "/" + strings.Join(parts, "/")
 }
 
-var c15QParts = []string{"tok=1", "tokens=x", "d=2", "Token=upper", "a=1", "a=2", "b=x%20y", "b=x+y", "token=secret", "token=s2", "debug", "debug=", "c=%26%3D", "empty=", "flag", "k%20ey=v", "z=%C3%BC", "a=3"}
+var c15QParts = []string{"%74oken=enc", "tok%65n=enc2", "debu%67=1", "de+bug=x", "tok=1", "tokens=x", "d=2", "Token=upper", "a=1", "a=2", "b=x%20y", "b=x+y", "token=secret", "token=s2", "debug", "debug=", "c=%26%3D", "empty=", "flag", "k%20ey=v", "z=%C3%BC", "a=3"}
 
 func c15Query(rng *rand.Rand) string {
 	n := rng.IntN(5)
@@ -339,6 +340,7 @@ func TestC15(t *testing.T) {
 			want := tmpl
 			want = strings.ReplaceAll(want, "{{ .Subject.ID }}", "anonymous")
 			want = strings.ReplaceAll(want, "{{ .Request.Method }}", method)
+			want = strings.ReplaceAll(want, "{{ if false }}never{{ end }}", "")
 			got := h.Header[http.CanonicalHeaderKey(name)]
 			if len(got) != 1 || got[0] != want {
 				r.Violation("pipeline-header-not-winning:"+name, fmt.Sprintf("upstream %s = %q, pipeline value %q", name, got, want), cs)
